@@ -245,7 +245,8 @@ insert_sliced_data_units	(uint8_t **		packet,
 				 const vbi_sliced **	sliced,
 				 unsigned int		s_left,
 				 vbi_service_set	service_mask,
-				 vbi_bool		fixed_length)
+				 vbi_bool		fixed_length,
+				 unsigned int		first_last_line)
 {
 	static const vbi_bool strict = TRUE;
 	uint8_t *p;
@@ -255,7 +256,11 @@ insert_sliced_data_units	(uint8_t **		packet,
 	p = *packet;
 	s = *sliced;
 
-	last_line = 0;
+	/* The line number reached before these lines: the field
+	   parity of a line with the undefined number 0 follows the
+	   last defined line of the frame, also when raw VBI lines
+	   were encoded or skipped in between. */
+	last_line = first_last_line;
 	*last_du_size = 0;
 
 	for (; s_left > 0; ++s, --s_left) {
@@ -642,7 +647,8 @@ vbi_dvb_multiplex_sliced	(uint8_t **		packet,
 					&last_du_size,
 					sliced, s_left,
 					service_mask,
-					fixed_length);
+					fixed_length,
+					/* first_last_line */ 0);
 
 	*packet_left -= *packet - p;
 	*sliced_left -= *sliced - s;
@@ -1414,6 +1420,7 @@ generate_pes_packet		(vbi_dvb_mux *		mx,
 	const uint8_t *samples_end;
 	unsigned int p_left;
 	unsigned int last_line;
+	unsigned int seg_last_line;
 	unsigned int last_du_size;
 	unsigned int du_size;
 	unsigned int packet_length;
@@ -1453,6 +1460,9 @@ generate_pes_packet		(vbi_dvb_mux *		mx,
 
 	s_begin = s;
 
+	/* Line number reached before the sliced lines at s_begin. */
+	seg_last_line = 0;
+
 	last_line = 0;
 
 	/* Size of the data unit stored last, for encode_stuffing(). */
@@ -1489,7 +1499,8 @@ generate_pes_packet		(vbi_dvb_mux *		mx,
 						&s_begin,
 						s - s_begin,
 						service_mask,
-						fixed_length);
+						fixed_length,
+						seg_last_line);
 		if (unlikely (0 != err)) {
 			s = s_begin;
 			goto failed;
@@ -1511,6 +1522,7 @@ generate_pes_packet		(vbi_dvb_mux *		mx,
 
 		if (0 == (service_mask & VBI_SLICED_VBI_625)) {
 			s_begin = ++s;
+			seg_last_line = last_line;
 			continue;
 		}
 
@@ -1567,6 +1579,7 @@ generate_pes_packet		(vbi_dvb_mux *		mx,
 		}
 
 		s_begin = ++s;
+		seg_last_line = last_line;
 	}
 
 	*sliced = s;
